@@ -52,6 +52,18 @@ def jobs(tier):
                 out.append(("v%d.middle.%d" % (version, i), "job", dict(version=version, name="name", comps=["d", c, "f.bin"])))
     for i, nm in enumerate(HOSTILE_NAMES):
         out.append(("v1.single.name.%d" % i, "job", dict(version=1, name=nm, comps=None, single=True)))
+    if tier != "quick":
+        # hostile name AND hostile component together, every position, every destination spelling
+        for version in (1, 2, 3):
+            for i, nm in enumerate(HOSTILE_NAMES):
+                for j, c in enumerate(HOSTILE_COMPS):
+                    out.append(("v%d.name%d+first%d" % (version, i, j), "job", dict(version=version, name=nm, comps=[c, "f.bin"])))
+                    if (i + j) % 3 == 0:
+                        out.append(("v%d.name%d+last%d" % (version, i, j), "job", dict(version=version, name=nm, comps=["d", c])))
+            for dspell, cwd in ((".", "/jail/dest"), ("..", "/jail/dest/sub"), ("../dest", "/jail/cwd"), ("../..", "/jail/dest/sub/deeper")):
+                for j, c in enumerate(HOSTILE_COMPS):
+                    out.append(("v%d.dest-%s.first%d" % (version, dspell.replace("/", "_"), j), "job",
+                                dict(version=version, name="name", comps=[c, "f.bin"], dest=dspell, cwd=cwd)))
     # the destination itself spelled relatively ('.', '..', '../dest'): containment must not be judged on the spelling
     for version in (1, 2, 3):
         for dspell, cwd in ((".", "/jail/dest"), ("..", "/jail/dest/sub"), ("../dest", "/jail/cwd"), ("../..", "/jail/dest/sub/deeper")):
